@@ -26,7 +26,8 @@
     - [deserialize_any] keeps every key of an object, in order (what a visitor does with a
       duplicate is layer 1's business);
     - all syntax errors are collapsed into one error outcome.
-    No proofs in this file. *)
+    No proofs in this file (they are in Serde/JsonText_proofs.v); the model is compared with the implementation by
+    the checks of Serde/JsonTextCheck.v on every run (tools/props/c18.py, json_text_leg). *)
 From Coq Require Import ZArith NArith Bool List String Ascii.
 From L21 Require Import Serde.SerdeGeneric.
 Import ListNotations.
@@ -245,6 +246,11 @@ Definition utf8_encode (n : N) : string :=
   else
     String (chr (240 + (n / 262144) mod 8)) (String (chr (128 + (n / 4096) mod 64))
       (String (chr (128 + (n / 64) mod 64)) (str1 (chr (128 + n mod 64))))).
+
+(** Unicode scalar values (everything a Rust [char] can be) and the UTF-8 bytes of a sequence of them *)
+Definition scalar_value (n : N) : Prop := n < 1114112 /\ ~ (55296 <= n <= 57343).
+Fixpoint utf8_of_scalars (l : list N) : string :=
+  match l with [] => EmptyString | n :: r => utf8_encode n ++ utf8_of_scalars r end.
 
 (** read.rs [decode_four_hex_digits] *)
 Definition hexv (c : ascii) : option N :=
@@ -467,8 +473,13 @@ Section Parse.
     | PFuel => JOutOfFuel
     end.
 
-  (** one unit of fuel per byte is always enough for printed text (JsonText_proofs.json_fuel_le_length) *)
-  Definition json_parse_text (s : string) : jres := json_parse (S (String.length s)) s.
+  (** fuel for a given text.  Every call consumes one unit; along any chain of nested calls at least one byte is
+      consumed per two calls ([parse_value] on a bracket, then [parse_seq]/[parse_map], which hands the next byte
+      to [parse_value] without consuming it), and the last call may meet the end of the text having consumed
+      nothing: two units per byte and two more are enough for EVERY text, well-formed or not (for printed text one
+      unit per byte is enough: JsonText_proofs.fuel_le_length).  [JOutOfFuel] is therefore never the outcome; the
+      correspondence run counts it as a disagreement with the implementation if it ever is. *)
+  Definition json_parse_text (s : string) : jres := json_parse (2 * String.length s + 2) s.
 End Parse.
 
 (** fuel that suffices to read back the printed form of [v] *)
